@@ -71,6 +71,16 @@ def plan(tier, seed):
                 g.append(dict(pre, kind=kind, routine=rout, level=level))
         groups.append(g)
     groups.sort(key=lambda g: -abs(SM.det3(g[0]["S"])) * len(X.by_name()[g[0]["xtal"]]["symbols"]))
+    # function-level routines with a re-ordered primitive cell (p2s_map not ascending)
+    for name in (["NaCl-prim-2", "hcp-2", "wurtzite-4"] if tier == "quick" else ["NaCl-prim-2", "hcp-2", "wurtzite-4", "rutile-6", "tri-P1-3", "CsCl-2", "mono-P21-2"]):
+        for S in S_SET:
+            if abs(SM.det3(S)) * len(X.by_name()[name]["symbols"]) > 32 or abs(SM.det3(S)) == 1:
+                continue
+            g = []
+            for kind, rout in itertools.product(("sym", "periodic-random", "sym+drift", "sym+antisym"), ("compact/C", "transpose-compact", "layout-roundtrip")):
+                for level in ([1, 2] if rout == "compact/C" else [0]):
+                    g.append({"xtal": name, "variant": "as-is", "S": S, "pm": "none", "kind": kind, "routine": rout, "level": level, "reorder": True})
+            groups.append(g)
     # process history: two different supercells of the same size one after the other in one process (anything cached per
     # process must be keyed by everything it depends on).  All ordered pairs of equal-volume supercells of S_SET.
     nseq = 0
@@ -168,7 +178,7 @@ def run_group(cases, seed):
     out = []
     key = None
     for case in cases:
-        k = (case["xtal"], case["variant"], json.dumps(case["S"]), case["pm"])
+        k = (case["xtal"], case["variant"], json.dumps(case["S"]), case["pm"], bool(case.get("reorder")))
         if k != key:
             key = k
             c = phx.xtal(case["xtal"], case["variant"], seed)
@@ -180,10 +190,21 @@ def run_group(cases, seed):
 def run_case(case, seed, c, st):
     import phonopy.harmonic.force_constants as FC
 
-    tag = "%s/%s" % (case["routine"], case["kind"])
+    tag = "%s/%s%s" % (case["routine"], case["kind"], "/reordered-primitive" if case.get("reorder") else "")
     if "ph" not in st:
         try:
             st["ph"] = phx.make_phonopy(c, case["S"], case["pm"])
+            if case.get("reorder") and len(st["ph"].primitive) > 1:
+                # a primitive cell whose atoms are listed in another order than they appear in the supercell (the public
+                # positions_to_reorder argument of get_primitive): p2s_map is then not ascending
+                from phonopy.structure.cells import get_primitive
+
+                ph_ = st["ph"]
+                want = ph_.primitive.scaled_positions[::-1].copy()
+                Ls, Lp = np.asarray(ph_.supercell.cell), np.asarray(ph_.primitive.cell)
+                tm = (Lp @ np.linalg.inv(Ls)).T
+                ph_._primitive = get_primitive(ph_.supercell, tm, symprec=1e-5, positions_to_reorder=want)
+                assert list(ph_.primitive.p2s_map) != sorted(ph_.primitive.p2s_map)
         except Exception as e:
             st["ph"] = e
     ph = st["ph"]
